@@ -79,11 +79,21 @@ pub fn handle(args: &[&str]) -> Option<String> {
         [min, max, ext] => (bound(min, "MIN")?, bound(max, "MAX")?, crate::util::pbool(ext)?),
         _ => return None,
     };
+    // the same constraint also governs a value assignment (`k INTEGER (a..b) ::= <a bound>`): the
+    // constant generated for it has to have the type of the component
+    let lit = if min != "MIN" { min.clone() } else if max != "MAX" { max.clone() } else { "0".to_string() };
+    let in_i64 = |s: &String| s == "MIN" || s == "MAX" || s.parse::<i64>().is_ok();
+    let assignment = if in_i64(&min) && in_i64(&max) {
+        format!("k INTEGER ({}..{}{}) ::= {}", min, max, if ext { ", ..." } else { "" }, lit)
+    } else {
+        String::new() // a bound outside i64 is read as a reference: the module is refused as it is
+    };
     let text = format!(
-        "M DEFINITIONS AUTOMATIC TAGS ::= BEGIN T ::= SEQUENCE {{ v INTEGER ({}..{}{}) }} END",
+        "M DEFINITIONS AUTOMATIC TAGS ::= BEGIN T ::= SEQUENCE {{ v INTEGER ({}..{}{}) }} {} END",
         min,
         max,
-        if ext { ", ..." } else { "" }
+        if ext { ", ..." } else { "" },
+        assignment
     );
     let tokens = Tokenizer::default().parse(&text);
     let model = match Model::try_from(tokens) {
@@ -121,6 +131,11 @@ pub fn handle(args: &[&str]) -> Option<String> {
     let (ret_min, body_min) = fn_body(code, "v_min").unwrap_or(("?".into(), "?".into()));
     let (ret_max, body_max) = fn_body(code, "v_max").unwrap_or(("?".into(), "?".into()));
     let ret = if ret_min == ret_max { ret_min } else { format!("{}/{}", ret_min, ret_max) };
+    if let Some(kty) = between(code, "pub const K: ", " =") {
+        if kty.trim() != field {
+            return Some(format!("vconst-differs field={} const={}", field, kty.trim()));
+        }
+    }
     let cty = between(&consts, "numbers::Constraint<", ">").unwrap_or("?").to_string();
     let cext = match between(&consts, "const EXTENSIBLE: bool = ", ";") {
         Some("true") => "1",
